@@ -262,27 +262,24 @@ def r08_3(ctx, rep):
                 if isinstance(p, ast.ExceptHandler):
                     where = "elementary"
                 p = getattr(p, "_parent", None)
-            blocks = []
-            split = [s for s in loop.body if isinstance(s, ast.If) and isinstance(s.test, ast.Name)]
-            if split:
-                blocks.append((where + "/" + split[0].test.id, split[0].body))
-                blocks.append((where + "/not " + split[0].test.id, split[0].orelse))
-            else:
-                blocks.append((where, loop.body))
-            # statements before the split apply to both
-            common = [s for s in loop.body if not (split and s is split[0])]
-            for name, block in blocks:
-                reads_child = False
-                for s in list(block) + common:
-                    for x in ast.walk(s):
-                        if isinstance(x, ast.Attribute) and x.attr == "child" and norm(x.value).endswith(".component"):
-                            reads_child = True
-                inst += 1
-                rep.ob(R, site, "selector branch " + name, reads_child,
-                       "modifications selected by first name `%s` are processed without looking at component.child: a dotted "
-                       "modification such as x.start = 5 is applied as if it were x = 5" % loop.target.id)
-    if inst < 3:
-        raise AnalysisError(R, "fewer than 3 symbol-selector branches found")
+            # every path through the loop body must look at component.child (strip one level, or test and raise)
+            cfg = CFG(ast.Module(body=[loop], type_ignores=[]), R)
+            it = [x for x in cfg.nodes if x.kind == "iter" and x.ast is loop][0]
+            entry = [s_ for s_ in cfg.succ[it.id] if cfg.nodes[s_].kind == "assume" and cfg.nodes[s_].taken][0]
+
+            def reads_child(x):
+                if x.kind not in ("stmt", "test") or isinstance(x.ast, (ast.FunctionDef, ast.ClassDef)):
+                    return False
+                return any(isinstance(y, ast.Attribute) and y.attr == "child" and norm(y.value).endswith(".component") for y in ast.walk(x.ast))
+
+            through = {x.id for x in cfg.nodes if reads_child(x)}
+            w = cfg.path(entry, it.id, avoid=through - {it.id})
+            inst += 1
+            rep.ob(R, site, "selector loop (%s symbols)" % where, w is None,
+                   "modifications selected by their first name are processed on some path without looking at component.child: a dotted "
+                   "modification such as x.start = 5 is applied as if it were x = 5", path=cfg.describe(w) if w else "")
+    if inst < 2:
+        raise AnalysisError(R, "fewer than 2 symbol-selector loops found")
 
 
 def _negation(a, b) -> bool:
@@ -372,9 +369,16 @@ def _m4(mod):
     return mod if delete_stmt_where(mod, "build_instance_tree", lambda st: norm(st) == "arg.scope = extended_orig_class") else None
 
 
-@SPEC.mutant("dotted path not stripped", TREE, "R08.3", "non-elementary/not inheriting_from_builtin")
+@SPEC.mutant("dotted path ignored for elementary symbols", TREE, "R08.3", "elementary")
 def _m5(mod):
-    return mod if delete_stmt_where(mod, "build_instance_tree", lambda st: norm(st) == "arg.value.component = arg.value.component.child[0]") else None
+    def edit(fn):
+        for n in ast.walk(fn):
+            if isinstance(n, ast.If) and norm(n.test) == "arg.value.component.child":
+                n.test = ast.Constant(value=False)
+                return True
+        return False
+
+    return mod if replace_in_func(mod, "build_instance_tree", edit) else None
 
 
 @SPEC.mutant("skip predicate not complementary", TREE, "R08.4", "partition")
